@@ -362,7 +362,7 @@ class BurgGenerator:
         """Emit a function that assigns a new state to a node"""
         self.print(1, "def burm_state(self, tree):")
         self.print(2, "tree.state = State()")
-        for term in self.system.terminals:
+        for term in sorted(self.system.terminals):
             self.emitcase(term)
         self.print(0)
 
